@@ -119,6 +119,7 @@ type FuncTr struct {
 	nonNil     map[string]bool
 	astLoops   []ast.Node
 	rfLoops    []*LoopInfo
+	recvTy     types.Type
 }
 
 type deferred struct {
@@ -557,6 +558,15 @@ func verifyFunc(w *World, fn *ssa.Function, c *Contract) (res *FuncResult) {
 	}()
 	if len(fn.Blocks) == 0 {
 		panic(unsupported("function has no body"))
+	}
+	w.tparams = nil
+	for f := fn; f != nil; f = f.Parent() {
+		if tps := f.TypeParams(); tps != nil && tps.Len() > 0 {
+			w.tparams = map[string]types.Type{}
+			for i := 0; i < tps.Len(); i++ {
+				w.tparams[tps.At(i).Obj().Name()] = tps.At(i)
+			}
+		}
 	}
 	if err := ft.run(); err != nil {
 		res.Err = fmt.Errorf("%s: %v (at %s)", fn.String(), err, ft.posStr(ft.curPos))
